@@ -555,6 +555,98 @@ static void run_purity(int L, int shard, int nsh)
     R.subspaces.push_back(sub);
 }
 
+// C14: purity across the material dispatch. The colliding-pawn alphabet above deliberately avoids the specialised
+// endgames; this one is made of them: one position per material class the evaluator dispatches on (bare kings,
+// insufficient material, every specialised endgame, general evaluation), both colours for the asymmetric ones.
+// Every sequence of length L over {eval(x)} u {clear} on one evaluator, each result compared with a fresh evaluator.
+static void run_matpurity(int L, int shard, int nsh)
+{
+    mc::Subspace sub;
+    sub.name = "material purity L=" + std::to_string(L) + " shard " + std::to_string(shard) + "/" + std::to_string(nsh);
+    sub.bound = "every sequence of length " + std::to_string(L) + " over {eval(x): one position per material class of the evaluator's dispatch} u {clear}";
+    static const char* FENS[] = {
+        "8/8/4k3/8/8/4K3/8/8 w - - 0 1",          // bare kings (material signature 0)
+        "8/8/4k3/8/8/4K3/8/8 b - - 0 1",
+        "8/8/4k3/8/8/4KB2/8/8 w - - 0 1",         // single minor
+        "8/8/3nk3/8/8/4K3/8/8 w - - 0 1",
+        "8/8/4k3/8/8/4KQ2/8/8 w - - 0 1",         // KXK
+        "8/8/3rk3/8/8/4K3/8/8 b - - 0 1",
+        "8/8/4k3/8/4P3/4K3/8/8 w - - 0 1",        // KPK
+        "8/8/4k3/4p3/8/4K3/8/8 b - - 0 1",
+        "8/8/4k3/8/8/3NKB2/8/8 w - - 0 1",        // KNBK
+        "8/8/4k3/8/8/3NKN2/8/8 w - - 0 1",        // KNNK
+        "8/8/4k3/4p3/8/3NKN2/8/8 w - - 0 1",      // KNNKP
+        "8/8/3rk3/8/8/4KQ2/8/8 w - - 0 1",        // KQKR
+        "8/8/4k3/4p3/8/4KQ2/8/8 w - - 0 1",       // KQKP
+        "8/8/4k3/4p3/8/4KR2/8/8 w - - 0 1",       // KRKP
+        "8/8/3bk3/8/8/4KR2/8/8 w - - 0 1",        // KRKB
+        "8/8/3nk3/8/8/4KR2/8/8 w - - 0 1",        // KRKN
+        "8/8/3rk3/8/8/3NKR2/8/8 w - - 0 1",       // KRNKR
+        "8/8/3rk3/8/8/3BKR2/8/8 w - - 0 1",       // KRBKR
+        "8/8/4k3/8/P7/P3KB2/8/8 w - - 0 1",       // KBPsK
+        "8/8/3bk3/8/P7/4KB2/8/8 w - - 0 1",       // KBPsKB
+        "8/8/3rk3/3p4/8/4KQ2/8/8 w - - 0 1",      // KQKRPs
+        "8/8/4k3/8/4P3/3PK3/8/8 w - - 0 1",       // KPsK
+        "8/8/3nk3/8/8/3NKB2/8/8 w - - 0 1",       // KmmKm
+        "r3k2r/pppq1ppp/2n2n2/4p3/4P3/2N2N2/PPPQ1PPP/R3K2R w KQkq - 0 1",   // general evaluation
+    };
+    std::vector<std::string> alpha;
+    std::vector<Position> pos;
+    std::vector<Value> expect;
+    for (const char* f : FENS)
+    {
+        PositionScorer fresh;
+        Position e{std::string(f)};
+        alpha.push_back(f);
+        pos.push_back(e);
+        expect.push_back(fresh.score(e));
+        if (endgame::score(e) != VALUE_NONE) R.count("material_alphabet_specialised_endgames");
+    }
+    int A = int(alpha.size()) + 1;
+    uint64_t total = 1;
+    for (int i = 0; i < L; ++i) total *= A;
+    std::vector<int> ops(L);
+    for (uint64_t code = 0; code < total; ++code)
+    {
+        if (int(code % nsh) != shard) continue;
+        if ((code & 0xFF) == 0 && R.out_of_time())
+        {
+            R.subspaces.push_back(sub);
+            return;
+        }
+        PositionScorer sc;
+        uint64_t c = code;
+        bool cleared = false;
+        for (int i = 0; i < L; ++i)
+        {
+            int op = ops[i] = int(c % A);
+            c /= A;
+            if (op == A - 1)
+            {
+                sc.clear();
+                cleared = true;
+                continue;
+            }
+            Value v = sc.score(pos[op]);
+            sub.transitions++;
+            R.count("material_sequence_evaluations");
+            if (v != expect[op])
+            {
+                std::vector<std::string> seq;
+                for (int j = 0; j <= i; ++j) seq.push_back(ops[j] == A - 1 ? std::string("clear") : "eval " + alpha[ops[j]]);
+                R.violation(std::string("C14:impure:material_dispatch:") + (cleared ? "after_clear:" : "no_clear:") + [&] { ref::Pos rp; ref::parse_fen(alpha[op], rp); return sigclass(rp); }(),
+                            mc::JObj().raw("sequence", mc::jlist(seq, true)).n("score", v).n("fresh_score", expect[op]));
+                break;
+            }
+            if (!bound_ok(v)) R.violation("C14:out_of_range", mc::JObj().s("fen", alpha[op]).n("score", v));
+        }
+        sub.states++;
+        R.outcome("m" + std::to_string(ops[0]));
+    }
+    sub.exhaustive = true;
+    R.subspaces.push_back(sub);
+}
+
 int main(int argc, char** argv)
 {
     std::vector<std::string> spacesv;
@@ -582,6 +674,12 @@ int main(int argc, char** argv)
         else if (parts[0] == "seq") run_seq(parts[1]);
         else if (parts[0] == "pawngroup") run_pawngroup(parts[1]);
         else if (parts[0] == "pawnpure") run_pawnpure(parts[1]);
+        else if (parts[0] == "matpurity")
+        {
+            int sh = atoi(parts[2].c_str());
+            int n = atoi(parts[2].substr(parts[2].find('/') + 1).c_str());
+            run_matpurity(atoi(parts[1].c_str()), sh, n);
+        }
         else if (parts[0] == "purity")
         {
             int sh = atoi(parts[2].c_str());
